@@ -49,6 +49,8 @@ def _bdecode(data: bytes, start_index: int = 0) -> typing.Tuple[typing.Union[int
         split_pos = data[start_index:].find(b':') + start_index
         try:
             length = int(data[start_index:split_pos])
+            if length < 0:
+                raise ValueError(f"negative string length: {length}")
         except (ValueError, TypeError) as err:
             raise DecodeError(err)
         start_index = split_pos + 1
